@@ -273,3 +273,40 @@ Definition imageBoxDial (answer : option (list ip)) (script : list bool) : dialO
 (* history of one image-box dial context (equally stateless) *)
 Definition imageBoxDialHistory (reqs : list dialReq) : list dialOutcome :=
   map (fun q => imageBoxDial (rqAnswer q) (rqScript q)) reqs.
+
+(* ---------------------------------------------------------------- check-then-use: what is dialled is what was vetted
+   Both dial contexts call resolver.LookupIPAddr exactly ONCE per connection, vet that answer, and hand
+   the dialer the text of addresses taken from that very answer (net.JoinHostPort(ip.IP.String(), port)),
+   never the host name; a dialer given an IP literal does not resolve.  The resolver is modelled as the
+   list of answers it WOULD give to the 1st, 2nd, 3rd ... lookup of the host (a rebinding resolver
+   changes its answer between lookups); a connection consumes the head only.
+
+   Explicit decision outputs: the vetted addresses (as resolved, before the text round trip) that the
+   dialer may be given, in order. *)
+
+(* imageBoxDialContext: Some ips[0] iff the whole answer was vetted *)
+Definition imageBoxDialDecision (answer : option (list ip)) : option ip :=
+  match answer with
+  | Some ips => if rejectImageBoxIPs ips then Some (hd [] ips) else None
+  | None => None
+  end.
+
+(* revocationDialContext: the loop walks ips, all of them vetted (or the host is allow-listed) *)
+Definition revocationDialCandidates (allowed : list bstr) (host : bstr) (answer : option (list ip)) : list ip :=
+  match answer with
+  | Some ips => if validateRevocationIPs host ips allowed then ips else []
+  | None => []
+  end.
+
+(* one connection against a scripted resolver: outcome, number of resolver calls, unconsumed answers.
+   An exhausted script is a resolver error. *)
+Definition nextAnswer (lookups : list (option (list ip))) : option (list ip) :=
+  match lookups with a :: _ => a | [] => None end.
+
+Definition imageBoxConnect (lookups : list (option (list ip))) (script : list bool)
+  : dialOutcome * N * list (option (list ip)) :=
+  (imageBoxDial (nextAnswer lookups) script, 1, tl lookups).
+
+Definition revocationConnect (allowed : list bstr) (host : bstr) (lookups : list (option (list ip)))
+           (script : list bool) : dialOutcome * N * list (option (list ip)) :=
+  (revocationDial allowed host (nextAnswer lookups) script, 1, tl lookups).
